@@ -52,8 +52,19 @@ def core_W1():
     ]
 
 
+def masked_events():
+    """volumes handed over as numpy.ma masked arrays: whatever a masked entry means, the records and the tracking agree"""
+    return [
+        A("P", ["A01", "B01"], {"$ma": [[30, 7.5], [False, True]]}),
+        A("T", ["A01", "B02", "C01"], {"$ma": [[30, 70, 7.5], [True, False, False]]}),
+        D("Q", ["A01", "B01", "C02"], {"$ma": [[30, 7.5, 70], [False, True, False]]}),
+        D("Q", ["A02"], {"$ma": [[30], [True]]}),
+        T("P", ["A01", "B01"], "Q", ["A01", "B02"], {"$ma": [[30, 7.5], [False, True]]}),
+    ]
+
+
 def full_W1(tier):
-    ev = []
+    ev = masked_events()
     # every wash scheme x partition mode on collision-rich transfers
     bases = [
         ("P", ["B02", "A01", "A02"], "Q", ["C01", "C02", "A01"], [70, 7.5, 30]),
@@ -321,6 +332,8 @@ class Harness(cm.BaseA):
             out.append({"set": "W4", "labware": cm.W4(), "worklists": {"w": {"cls": cls, "max_volume": 950, "auto_split": True}}, "maxdepth": 1})
             out.append({"set": "W1", "labware": cm.W1(), "worklists": {"w": {"cls": cls, "max_volume": 33.5, "auto_split": True}}, "maxdepth": 1})
             out.append({"set": "W1", "inexact": True, "labware": cm.W1(), "worklists": {"w": {"cls": cls, "max_volume": 50, "auto_split": True}}, "maxdepth": 2})
+            # every labware and the worklist are replaced by a copy of themselves before every operation
+            out.append({"set": "W1", "clone": "deepcopy" if cls == "EvoWorklist" else "copy", "labware": cm.W1(), "worklists": {"w": {"cls": cls, "max_volume": 50, "auto_split": True}}, "maxdepth": 1})
         return out
 
     def init(self, config):
@@ -364,6 +377,7 @@ class Harness(cm.BaseA):
             decoy = make_world({"labware": config["labware"], "worklists": {"w": dict(config["worklists"]["w"], cls=other)}})
             exec_event(decoy, ev)
         out, exc = exec_event(W, ev)
+        wl = W["wl"]["w"]  # (a cloning configuration has replaced the object)
         recs = list(wl)
         del wl[:]
         W["depth"] += 1
@@ -386,7 +400,7 @@ class Harness(cm.BaseA):
                     V.append(("C01/replay-leaves-limits", f"{r!r}: {tag} {d}"))
             if p is not None:
                 parsed.append(p)
-        if not V:
+        if not V and '"$ma"' not in cm.jdump(ev):
             V += self.addressing(ev, parsed, config, exact)
         for suffix, d in cm.compare_robot(robot, W, config, W["names"], exact=exact, check_comp=exact):
             V.append((f"C01/{suffix}", d))
